@@ -503,6 +503,13 @@ namespace bluetoe {
     template < typename ConnectionData >
     void server< Options... >::l2cap_input( const std::uint8_t* input, std::size_t in_size, std::uint8_t* output, std::size_t& out_size, ConnectionData& connection )
     {
+        // without an opcode, there is nothing to respond to
+        if ( in_size == 0 )
+        {
+            out_size = 0;
+            return;
+        }
+
         // clip the output size to the negotiated mtu
         out_size = std::min< std::size_t >( out_size, connection.negotiated_mtu() );
 
